@@ -72,38 +72,40 @@ Record conn := mkconn {
   olog : list (Z * Z);
   deleg : bool;
   gated : bool;
-  waiting : bool
+  waiting : bool;
+  ignore_first : bool
 }.
 
-Definition set_srv (v : bool) (c : conn) : conn := mkconn v (strict c) (sid c) (kex c) (kexinit_sent c) (kex_complete c) (send_enc c) (recv_enc c) (next_recv c) (can_recv_ext c) (next_service c) (auth_in_prog c) (auth c) (req_issued c) (methods c) (auth_complete c) (auth_final c) (user c) (deferred c) (pending c) (closed c) (authed c) (unsolicited c) (app_events c) (desync c) (olog c) (deleg c) (gated c) (waiting c).
-Definition set_strict (v : bool) (c : conn) : conn := mkconn (srv c) v (sid c) (kex c) (kexinit_sent c) (kex_complete c) (send_enc c) (recv_enc c) (next_recv c) (can_recv_ext c) (next_service c) (auth_in_prog c) (auth c) (req_issued c) (methods c) (auth_complete c) (auth_final c) (user c) (deferred c) (pending c) (closed c) (authed c) (unsolicited c) (app_events c) (desync c) (olog c) (deleg c) (gated c) (waiting c).
-Definition set_sid (v : bool) (c : conn) : conn := mkconn (srv c) (strict c) v (kex c) (kexinit_sent c) (kex_complete c) (send_enc c) (recv_enc c) (next_recv c) (can_recv_ext c) (next_service c) (auth_in_prog c) (auth c) (req_issued c) (methods c) (auth_complete c) (auth_final c) (user c) (deferred c) (pending c) (closed c) (authed c) (unsolicited c) (app_events c) (desync c) (olog c) (deleg c) (gated c) (waiting c).
-Definition set_kex (v : bool) (c : conn) : conn := mkconn (srv c) (strict c) (sid c) v (kexinit_sent c) (kex_complete c) (send_enc c) (recv_enc c) (next_recv c) (can_recv_ext c) (next_service c) (auth_in_prog c) (auth c) (req_issued c) (methods c) (auth_complete c) (auth_final c) (user c) (deferred c) (pending c) (closed c) (authed c) (unsolicited c) (app_events c) (desync c) (olog c) (deleg c) (gated c) (waiting c).
-Definition set_kexinit_sent (v : bool) (c : conn) : conn := mkconn (srv c) (strict c) (sid c) (kex c) v (kex_complete c) (send_enc c) (recv_enc c) (next_recv c) (can_recv_ext c) (next_service c) (auth_in_prog c) (auth c) (req_issued c) (methods c) (auth_complete c) (auth_final c) (user c) (deferred c) (pending c) (closed c) (authed c) (unsolicited c) (app_events c) (desync c) (olog c) (deleg c) (gated c) (waiting c).
-Definition set_kex_complete (v : bool) (c : conn) : conn := mkconn (srv c) (strict c) (sid c) (kex c) (kexinit_sent c) v (send_enc c) (recv_enc c) (next_recv c) (can_recv_ext c) (next_service c) (auth_in_prog c) (auth c) (req_issued c) (methods c) (auth_complete c) (auth_final c) (user c) (deferred c) (pending c) (closed c) (authed c) (unsolicited c) (app_events c) (desync c) (olog c) (deleg c) (gated c) (waiting c).
-Definition set_send_enc (v : bool) (c : conn) : conn := mkconn (srv c) (strict c) (sid c) (kex c) (kexinit_sent c) (kex_complete c) v (recv_enc c) (next_recv c) (can_recv_ext c) (next_service c) (auth_in_prog c) (auth c) (req_issued c) (methods c) (auth_complete c) (auth_final c) (user c) (deferred c) (pending c) (closed c) (authed c) (unsolicited c) (app_events c) (desync c) (olog c) (deleg c) (gated c) (waiting c).
-Definition set_recv_enc (v : bool) (c : conn) : conn := mkconn (srv c) (strict c) (sid c) (kex c) (kexinit_sent c) (kex_complete c) (send_enc c) v (next_recv c) (can_recv_ext c) (next_service c) (auth_in_prog c) (auth c) (req_issued c) (methods c) (auth_complete c) (auth_final c) (user c) (deferred c) (pending c) (closed c) (authed c) (unsolicited c) (app_events c) (desync c) (olog c) (deleg c) (gated c) (waiting c).
-Definition set_next_recv (v : bool) (c : conn) : conn := mkconn (srv c) (strict c) (sid c) (kex c) (kexinit_sent c) (kex_complete c) (send_enc c) (recv_enc c) v (can_recv_ext c) (next_service c) (auth_in_prog c) (auth c) (req_issued c) (methods c) (auth_complete c) (auth_final c) (user c) (deferred c) (pending c) (closed c) (authed c) (unsolicited c) (app_events c) (desync c) (olog c) (deleg c) (gated c) (waiting c).
-Definition set_can_recv_ext (v : bool) (c : conn) : conn := mkconn (srv c) (strict c) (sid c) (kex c) (kexinit_sent c) (kex_complete c) (send_enc c) (recv_enc c) (next_recv c) v (next_service c) (auth_in_prog c) (auth c) (req_issued c) (methods c) (auth_complete c) (auth_final c) (user c) (deferred c) (pending c) (closed c) (authed c) (unsolicited c) (app_events c) (desync c) (olog c) (deleg c) (gated c) (waiting c).
-Definition set_next_service (v : bool) (c : conn) : conn := mkconn (srv c) (strict c) (sid c) (kex c) (kexinit_sent c) (kex_complete c) (send_enc c) (recv_enc c) (next_recv c) (can_recv_ext c) v (auth_in_prog c) (auth c) (req_issued c) (methods c) (auth_complete c) (auth_final c) (user c) (deferred c) (pending c) (closed c) (authed c) (unsolicited c) (app_events c) (desync c) (olog c) (deleg c) (gated c) (waiting c).
-Definition set_auth_in_prog (v : bool) (c : conn) : conn := mkconn (srv c) (strict c) (sid c) (kex c) (kexinit_sent c) (kex_complete c) (send_enc c) (recv_enc c) (next_recv c) (can_recv_ext c) (next_service c) v (auth c) (req_issued c) (methods c) (auth_complete c) (auth_final c) (user c) (deferred c) (pending c) (closed c) (authed c) (unsolicited c) (app_events c) (desync c) (olog c) (deleg c) (gated c) (waiting c).
-Definition set_auth (v : Z) (c : conn) : conn := mkconn (srv c) (strict c) (sid c) (kex c) (kexinit_sent c) (kex_complete c) (send_enc c) (recv_enc c) (next_recv c) (can_recv_ext c) (next_service c) (auth_in_prog c) v (req_issued c) (methods c) (auth_complete c) (auth_final c) (user c) (deferred c) (pending c) (closed c) (authed c) (unsolicited c) (app_events c) (desync c) (olog c) (deleg c) (gated c) (waiting c).
-Definition set_req_issued (v : bool) (c : conn) : conn := mkconn (srv c) (strict c) (sid c) (kex c) (kexinit_sent c) (kex_complete c) (send_enc c) (recv_enc c) (next_recv c) (can_recv_ext c) (next_service c) (auth_in_prog c) (auth c) v (methods c) (auth_complete c) (auth_final c) (user c) (deferred c) (pending c) (closed c) (authed c) (unsolicited c) (app_events c) (desync c) (olog c) (deleg c) (gated c) (waiting c).
-Definition set_methods (v : list Z) (c : conn) : conn := mkconn (srv c) (strict c) (sid c) (kex c) (kexinit_sent c) (kex_complete c) (send_enc c) (recv_enc c) (next_recv c) (can_recv_ext c) (next_service c) (auth_in_prog c) (auth c) (req_issued c) v (auth_complete c) (auth_final c) (user c) (deferred c) (pending c) (closed c) (authed c) (unsolicited c) (app_events c) (desync c) (olog c) (deleg c) (gated c) (waiting c).
-Definition set_auth_complete (v : bool) (c : conn) : conn := mkconn (srv c) (strict c) (sid c) (kex c) (kexinit_sent c) (kex_complete c) (send_enc c) (recv_enc c) (next_recv c) (can_recv_ext c) (next_service c) (auth_in_prog c) (auth c) (req_issued c) (methods c) v (auth_final c) (user c) (deferred c) (pending c) (closed c) (authed c) (unsolicited c) (app_events c) (desync c) (olog c) (deleg c) (gated c) (waiting c).
-Definition set_auth_final (v : bool) (c : conn) : conn := mkconn (srv c) (strict c) (sid c) (kex c) (kexinit_sent c) (kex_complete c) (send_enc c) (recv_enc c) (next_recv c) (can_recv_ext c) (next_service c) (auth_in_prog c) (auth c) (req_issued c) (methods c) (auth_complete c) v (user c) (deferred c) (pending c) (closed c) (authed c) (unsolicited c) (app_events c) (desync c) (olog c) (deleg c) (gated c) (waiting c).
-Definition set_user (v : Z) (c : conn) : conn := mkconn (srv c) (strict c) (sid c) (kex c) (kexinit_sent c) (kex_complete c) (send_enc c) (recv_enc c) (next_recv c) (can_recv_ext c) (next_service c) (auth_in_prog c) (auth c) (req_issued c) (methods c) (auth_complete c) (auth_final c) v (deferred c) (pending c) (closed c) (authed c) (unsolicited c) (app_events c) (desync c) (olog c) (deleg c) (gated c) (waiting c).
-Definition set_deferred (v : list Z) (c : conn) : conn := mkconn (srv c) (strict c) (sid c) (kex c) (kexinit_sent c) (kex_complete c) (send_enc c) (recv_enc c) (next_recv c) (can_recv_ext c) (next_service c) (auth_in_prog c) (auth c) (req_issued c) (methods c) (auth_complete c) (auth_final c) (user c) v (pending c) (closed c) (authed c) (unsolicited c) (app_events c) (desync c) (olog c) (deleg c) (gated c) (waiting c).
-Definition set_pending (v : list task) (c : conn) : conn := mkconn (srv c) (strict c) (sid c) (kex c) (kexinit_sent c) (kex_complete c) (send_enc c) (recv_enc c) (next_recv c) (can_recv_ext c) (next_service c) (auth_in_prog c) (auth c) (req_issued c) (methods c) (auth_complete c) (auth_final c) (user c) (deferred c) v (closed c) (authed c) (unsolicited c) (app_events c) (desync c) (olog c) (deleg c) (gated c) (waiting c).
-Definition set_closed (v : bool) (c : conn) : conn := mkconn (srv c) (strict c) (sid c) (kex c) (kexinit_sent c) (kex_complete c) (send_enc c) (recv_enc c) (next_recv c) (can_recv_ext c) (next_service c) (auth_in_prog c) (auth c) (req_issued c) (methods c) (auth_complete c) (auth_final c) (user c) (deferred c) (pending c) v (authed c) (unsolicited c) (app_events c) (desync c) (olog c) (deleg c) (gated c) (waiting c).
-Definition set_authed (v : Z) (c : conn) : conn := mkconn (srv c) (strict c) (sid c) (kex c) (kexinit_sent c) (kex_complete c) (send_enc c) (recv_enc c) (next_recv c) (can_recv_ext c) (next_service c) (auth_in_prog c) (auth c) (req_issued c) (methods c) (auth_complete c) (auth_final c) (user c) (deferred c) (pending c) (closed c) v (unsolicited c) (app_events c) (desync c) (olog c) (deleg c) (gated c) (waiting c).
-Definition set_unsolicited (v : bool) (c : conn) : conn := mkconn (srv c) (strict c) (sid c) (kex c) (kexinit_sent c) (kex_complete c) (send_enc c) (recv_enc c) (next_recv c) (can_recv_ext c) (next_service c) (auth_in_prog c) (auth c) (req_issued c) (methods c) (auth_complete c) (auth_final c) (user c) (deferred c) (pending c) (closed c) (authed c) v (app_events c) (desync c) (olog c) (deleg c) (gated c) (waiting c).
-Definition set_app_events (v : Z) (c : conn) : conn := mkconn (srv c) (strict c) (sid c) (kex c) (kexinit_sent c) (kex_complete c) (send_enc c) (recv_enc c) (next_recv c) (can_recv_ext c) (next_service c) (auth_in_prog c) (auth c) (req_issued c) (methods c) (auth_complete c) (auth_final c) (user c) (deferred c) (pending c) (closed c) (authed c) (unsolicited c) v (desync c) (olog c) (deleg c) (gated c) (waiting c).
-Definition set_desync (v : bool) (c : conn) : conn := mkconn (srv c) (strict c) (sid c) (kex c) (kexinit_sent c) (kex_complete c) (send_enc c) (recv_enc c) (next_recv c) (can_recv_ext c) (next_service c) (auth_in_prog c) (auth c) (req_issued c) (methods c) (auth_complete c) (auth_final c) (user c) (deferred c) (pending c) (closed c) (authed c) (unsolicited c) (app_events c) v (olog c) (deleg c) (gated c) (waiting c).
-Definition set_olog (v : list (Z * Z)) (c : conn) : conn := mkconn (srv c) (strict c) (sid c) (kex c) (kexinit_sent c) (kex_complete c) (send_enc c) (recv_enc c) (next_recv c) (can_recv_ext c) (next_service c) (auth_in_prog c) (auth c) (req_issued c) (methods c) (auth_complete c) (auth_final c) (user c) (deferred c) (pending c) (closed c) (authed c) (unsolicited c) (app_events c) (desync c) v (deleg c) (gated c) (waiting c).
-Definition set_deleg (v : bool) (c : conn) : conn := mkconn (srv c) (strict c) (sid c) (kex c) (kexinit_sent c) (kex_complete c) (send_enc c) (recv_enc c) (next_recv c) (can_recv_ext c) (next_service c) (auth_in_prog c) (auth c) (req_issued c) (methods c) (auth_complete c) (auth_final c) (user c) (deferred c) (pending c) (closed c) (authed c) (unsolicited c) (app_events c) (desync c) (olog c) v (gated c) (waiting c).
-Definition set_gated (v : bool) (c : conn) : conn := mkconn (srv c) (strict c) (sid c) (kex c) (kexinit_sent c) (kex_complete c) (send_enc c) (recv_enc c) (next_recv c) (can_recv_ext c) (next_service c) (auth_in_prog c) (auth c) (req_issued c) (methods c) (auth_complete c) (auth_final c) (user c) (deferred c) (pending c) (closed c) (authed c) (unsolicited c) (app_events c) (desync c) (olog c) (deleg c) v (waiting c).
-Definition set_waiting (v : bool) (c : conn) : conn := mkconn (srv c) (strict c) (sid c) (kex c) (kexinit_sent c) (kex_complete c) (send_enc c) (recv_enc c) (next_recv c) (can_recv_ext c) (next_service c) (auth_in_prog c) (auth c) (req_issued c) (methods c) (auth_complete c) (auth_final c) (user c) (deferred c) (pending c) (closed c) (authed c) (unsolicited c) (app_events c) (desync c) (olog c) (deleg c) (gated c) v.
+Definition set_srv (v : bool) (c : conn) : conn := mkconn v (strict c) (sid c) (kex c) (kexinit_sent c) (kex_complete c) (send_enc c) (recv_enc c) (next_recv c) (can_recv_ext c) (next_service c) (auth_in_prog c) (auth c) (req_issued c) (methods c) (auth_complete c) (auth_final c) (user c) (deferred c) (pending c) (closed c) (authed c) (unsolicited c) (app_events c) (desync c) (olog c) (deleg c) (gated c) (waiting c) (ignore_first c).
+Definition set_strict (v : bool) (c : conn) : conn := mkconn (srv c) v (sid c) (kex c) (kexinit_sent c) (kex_complete c) (send_enc c) (recv_enc c) (next_recv c) (can_recv_ext c) (next_service c) (auth_in_prog c) (auth c) (req_issued c) (methods c) (auth_complete c) (auth_final c) (user c) (deferred c) (pending c) (closed c) (authed c) (unsolicited c) (app_events c) (desync c) (olog c) (deleg c) (gated c) (waiting c) (ignore_first c).
+Definition set_sid (v : bool) (c : conn) : conn := mkconn (srv c) (strict c) v (kex c) (kexinit_sent c) (kex_complete c) (send_enc c) (recv_enc c) (next_recv c) (can_recv_ext c) (next_service c) (auth_in_prog c) (auth c) (req_issued c) (methods c) (auth_complete c) (auth_final c) (user c) (deferred c) (pending c) (closed c) (authed c) (unsolicited c) (app_events c) (desync c) (olog c) (deleg c) (gated c) (waiting c) (ignore_first c).
+Definition set_kex (v : bool) (c : conn) : conn := mkconn (srv c) (strict c) (sid c) v (kexinit_sent c) (kex_complete c) (send_enc c) (recv_enc c) (next_recv c) (can_recv_ext c) (next_service c) (auth_in_prog c) (auth c) (req_issued c) (methods c) (auth_complete c) (auth_final c) (user c) (deferred c) (pending c) (closed c) (authed c) (unsolicited c) (app_events c) (desync c) (olog c) (deleg c) (gated c) (waiting c) (ignore_first c).
+Definition set_kexinit_sent (v : bool) (c : conn) : conn := mkconn (srv c) (strict c) (sid c) (kex c) v (kex_complete c) (send_enc c) (recv_enc c) (next_recv c) (can_recv_ext c) (next_service c) (auth_in_prog c) (auth c) (req_issued c) (methods c) (auth_complete c) (auth_final c) (user c) (deferred c) (pending c) (closed c) (authed c) (unsolicited c) (app_events c) (desync c) (olog c) (deleg c) (gated c) (waiting c) (ignore_first c).
+Definition set_kex_complete (v : bool) (c : conn) : conn := mkconn (srv c) (strict c) (sid c) (kex c) (kexinit_sent c) v (send_enc c) (recv_enc c) (next_recv c) (can_recv_ext c) (next_service c) (auth_in_prog c) (auth c) (req_issued c) (methods c) (auth_complete c) (auth_final c) (user c) (deferred c) (pending c) (closed c) (authed c) (unsolicited c) (app_events c) (desync c) (olog c) (deleg c) (gated c) (waiting c) (ignore_first c).
+Definition set_send_enc (v : bool) (c : conn) : conn := mkconn (srv c) (strict c) (sid c) (kex c) (kexinit_sent c) (kex_complete c) v (recv_enc c) (next_recv c) (can_recv_ext c) (next_service c) (auth_in_prog c) (auth c) (req_issued c) (methods c) (auth_complete c) (auth_final c) (user c) (deferred c) (pending c) (closed c) (authed c) (unsolicited c) (app_events c) (desync c) (olog c) (deleg c) (gated c) (waiting c) (ignore_first c).
+Definition set_recv_enc (v : bool) (c : conn) : conn := mkconn (srv c) (strict c) (sid c) (kex c) (kexinit_sent c) (kex_complete c) (send_enc c) v (next_recv c) (can_recv_ext c) (next_service c) (auth_in_prog c) (auth c) (req_issued c) (methods c) (auth_complete c) (auth_final c) (user c) (deferred c) (pending c) (closed c) (authed c) (unsolicited c) (app_events c) (desync c) (olog c) (deleg c) (gated c) (waiting c) (ignore_first c).
+Definition set_next_recv (v : bool) (c : conn) : conn := mkconn (srv c) (strict c) (sid c) (kex c) (kexinit_sent c) (kex_complete c) (send_enc c) (recv_enc c) v (can_recv_ext c) (next_service c) (auth_in_prog c) (auth c) (req_issued c) (methods c) (auth_complete c) (auth_final c) (user c) (deferred c) (pending c) (closed c) (authed c) (unsolicited c) (app_events c) (desync c) (olog c) (deleg c) (gated c) (waiting c) (ignore_first c).
+Definition set_can_recv_ext (v : bool) (c : conn) : conn := mkconn (srv c) (strict c) (sid c) (kex c) (kexinit_sent c) (kex_complete c) (send_enc c) (recv_enc c) (next_recv c) v (next_service c) (auth_in_prog c) (auth c) (req_issued c) (methods c) (auth_complete c) (auth_final c) (user c) (deferred c) (pending c) (closed c) (authed c) (unsolicited c) (app_events c) (desync c) (olog c) (deleg c) (gated c) (waiting c) (ignore_first c).
+Definition set_next_service (v : bool) (c : conn) : conn := mkconn (srv c) (strict c) (sid c) (kex c) (kexinit_sent c) (kex_complete c) (send_enc c) (recv_enc c) (next_recv c) (can_recv_ext c) v (auth_in_prog c) (auth c) (req_issued c) (methods c) (auth_complete c) (auth_final c) (user c) (deferred c) (pending c) (closed c) (authed c) (unsolicited c) (app_events c) (desync c) (olog c) (deleg c) (gated c) (waiting c) (ignore_first c).
+Definition set_auth_in_prog (v : bool) (c : conn) : conn := mkconn (srv c) (strict c) (sid c) (kex c) (kexinit_sent c) (kex_complete c) (send_enc c) (recv_enc c) (next_recv c) (can_recv_ext c) (next_service c) v (auth c) (req_issued c) (methods c) (auth_complete c) (auth_final c) (user c) (deferred c) (pending c) (closed c) (authed c) (unsolicited c) (app_events c) (desync c) (olog c) (deleg c) (gated c) (waiting c) (ignore_first c).
+Definition set_auth (v : Z) (c : conn) : conn := mkconn (srv c) (strict c) (sid c) (kex c) (kexinit_sent c) (kex_complete c) (send_enc c) (recv_enc c) (next_recv c) (can_recv_ext c) (next_service c) (auth_in_prog c) v (req_issued c) (methods c) (auth_complete c) (auth_final c) (user c) (deferred c) (pending c) (closed c) (authed c) (unsolicited c) (app_events c) (desync c) (olog c) (deleg c) (gated c) (waiting c) (ignore_first c).
+Definition set_req_issued (v : bool) (c : conn) : conn := mkconn (srv c) (strict c) (sid c) (kex c) (kexinit_sent c) (kex_complete c) (send_enc c) (recv_enc c) (next_recv c) (can_recv_ext c) (next_service c) (auth_in_prog c) (auth c) v (methods c) (auth_complete c) (auth_final c) (user c) (deferred c) (pending c) (closed c) (authed c) (unsolicited c) (app_events c) (desync c) (olog c) (deleg c) (gated c) (waiting c) (ignore_first c).
+Definition set_methods (v : list Z) (c : conn) : conn := mkconn (srv c) (strict c) (sid c) (kex c) (kexinit_sent c) (kex_complete c) (send_enc c) (recv_enc c) (next_recv c) (can_recv_ext c) (next_service c) (auth_in_prog c) (auth c) (req_issued c) v (auth_complete c) (auth_final c) (user c) (deferred c) (pending c) (closed c) (authed c) (unsolicited c) (app_events c) (desync c) (olog c) (deleg c) (gated c) (waiting c) (ignore_first c).
+Definition set_auth_complete (v : bool) (c : conn) : conn := mkconn (srv c) (strict c) (sid c) (kex c) (kexinit_sent c) (kex_complete c) (send_enc c) (recv_enc c) (next_recv c) (can_recv_ext c) (next_service c) (auth_in_prog c) (auth c) (req_issued c) (methods c) v (auth_final c) (user c) (deferred c) (pending c) (closed c) (authed c) (unsolicited c) (app_events c) (desync c) (olog c) (deleg c) (gated c) (waiting c) (ignore_first c).
+Definition set_auth_final (v : bool) (c : conn) : conn := mkconn (srv c) (strict c) (sid c) (kex c) (kexinit_sent c) (kex_complete c) (send_enc c) (recv_enc c) (next_recv c) (can_recv_ext c) (next_service c) (auth_in_prog c) (auth c) (req_issued c) (methods c) (auth_complete c) v (user c) (deferred c) (pending c) (closed c) (authed c) (unsolicited c) (app_events c) (desync c) (olog c) (deleg c) (gated c) (waiting c) (ignore_first c).
+Definition set_user (v : Z) (c : conn) : conn := mkconn (srv c) (strict c) (sid c) (kex c) (kexinit_sent c) (kex_complete c) (send_enc c) (recv_enc c) (next_recv c) (can_recv_ext c) (next_service c) (auth_in_prog c) (auth c) (req_issued c) (methods c) (auth_complete c) (auth_final c) v (deferred c) (pending c) (closed c) (authed c) (unsolicited c) (app_events c) (desync c) (olog c) (deleg c) (gated c) (waiting c) (ignore_first c).
+Definition set_deferred (v : list Z) (c : conn) : conn := mkconn (srv c) (strict c) (sid c) (kex c) (kexinit_sent c) (kex_complete c) (send_enc c) (recv_enc c) (next_recv c) (can_recv_ext c) (next_service c) (auth_in_prog c) (auth c) (req_issued c) (methods c) (auth_complete c) (auth_final c) (user c) v (pending c) (closed c) (authed c) (unsolicited c) (app_events c) (desync c) (olog c) (deleg c) (gated c) (waiting c) (ignore_first c).
+Definition set_pending (v : list task) (c : conn) : conn := mkconn (srv c) (strict c) (sid c) (kex c) (kexinit_sent c) (kex_complete c) (send_enc c) (recv_enc c) (next_recv c) (can_recv_ext c) (next_service c) (auth_in_prog c) (auth c) (req_issued c) (methods c) (auth_complete c) (auth_final c) (user c) (deferred c) v (closed c) (authed c) (unsolicited c) (app_events c) (desync c) (olog c) (deleg c) (gated c) (waiting c) (ignore_first c).
+Definition set_closed (v : bool) (c : conn) : conn := mkconn (srv c) (strict c) (sid c) (kex c) (kexinit_sent c) (kex_complete c) (send_enc c) (recv_enc c) (next_recv c) (can_recv_ext c) (next_service c) (auth_in_prog c) (auth c) (req_issued c) (methods c) (auth_complete c) (auth_final c) (user c) (deferred c) (pending c) v (authed c) (unsolicited c) (app_events c) (desync c) (olog c) (deleg c) (gated c) (waiting c) (ignore_first c).
+Definition set_authed (v : Z) (c : conn) : conn := mkconn (srv c) (strict c) (sid c) (kex c) (kexinit_sent c) (kex_complete c) (send_enc c) (recv_enc c) (next_recv c) (can_recv_ext c) (next_service c) (auth_in_prog c) (auth c) (req_issued c) (methods c) (auth_complete c) (auth_final c) (user c) (deferred c) (pending c) (closed c) v (unsolicited c) (app_events c) (desync c) (olog c) (deleg c) (gated c) (waiting c) (ignore_first c).
+Definition set_unsolicited (v : bool) (c : conn) : conn := mkconn (srv c) (strict c) (sid c) (kex c) (kexinit_sent c) (kex_complete c) (send_enc c) (recv_enc c) (next_recv c) (can_recv_ext c) (next_service c) (auth_in_prog c) (auth c) (req_issued c) (methods c) (auth_complete c) (auth_final c) (user c) (deferred c) (pending c) (closed c) (authed c) v (app_events c) (desync c) (olog c) (deleg c) (gated c) (waiting c) (ignore_first c).
+Definition set_app_events (v : Z) (c : conn) : conn := mkconn (srv c) (strict c) (sid c) (kex c) (kexinit_sent c) (kex_complete c) (send_enc c) (recv_enc c) (next_recv c) (can_recv_ext c) (next_service c) (auth_in_prog c) (auth c) (req_issued c) (methods c) (auth_complete c) (auth_final c) (user c) (deferred c) (pending c) (closed c) (authed c) (unsolicited c) v (desync c) (olog c) (deleg c) (gated c) (waiting c) (ignore_first c).
+Definition set_desync (v : bool) (c : conn) : conn := mkconn (srv c) (strict c) (sid c) (kex c) (kexinit_sent c) (kex_complete c) (send_enc c) (recv_enc c) (next_recv c) (can_recv_ext c) (next_service c) (auth_in_prog c) (auth c) (req_issued c) (methods c) (auth_complete c) (auth_final c) (user c) (deferred c) (pending c) (closed c) (authed c) (unsolicited c) (app_events c) v (olog c) (deleg c) (gated c) (waiting c) (ignore_first c).
+Definition set_olog (v : list (Z * Z)) (c : conn) : conn := mkconn (srv c) (strict c) (sid c) (kex c) (kexinit_sent c) (kex_complete c) (send_enc c) (recv_enc c) (next_recv c) (can_recv_ext c) (next_service c) (auth_in_prog c) (auth c) (req_issued c) (methods c) (auth_complete c) (auth_final c) (user c) (deferred c) (pending c) (closed c) (authed c) (unsolicited c) (app_events c) (desync c) v (deleg c) (gated c) (waiting c) (ignore_first c).
+Definition set_deleg (v : bool) (c : conn) : conn := mkconn (srv c) (strict c) (sid c) (kex c) (kexinit_sent c) (kex_complete c) (send_enc c) (recv_enc c) (next_recv c) (can_recv_ext c) (next_service c) (auth_in_prog c) (auth c) (req_issued c) (methods c) (auth_complete c) (auth_final c) (user c) (deferred c) (pending c) (closed c) (authed c) (unsolicited c) (app_events c) (desync c) (olog c) v (gated c) (waiting c) (ignore_first c).
+Definition set_gated (v : bool) (c : conn) : conn := mkconn (srv c) (strict c) (sid c) (kex c) (kexinit_sent c) (kex_complete c) (send_enc c) (recv_enc c) (next_recv c) (can_recv_ext c) (next_service c) (auth_in_prog c) (auth c) (req_issued c) (methods c) (auth_complete c) (auth_final c) (user c) (deferred c) (pending c) (closed c) (authed c) (unsolicited c) (app_events c) (desync c) (olog c) (deleg c) v (waiting c) (ignore_first c).
+Definition set_waiting (v : bool) (c : conn) : conn := mkconn (srv c) (strict c) (sid c) (kex c) (kexinit_sent c) (kex_complete c) (send_enc c) (recv_enc c) (next_recv c) (can_recv_ext c) (next_service c) (auth_in_prog c) (auth c) (req_issued c) (methods c) (auth_complete c) (auth_final c) (user c) (deferred c) (pending c) (closed c) (authed c) (unsolicited c) (app_events c) (desync c) (olog c) (deleg c) (gated c) v (ignore_first c).
+Definition set_ignore_first (v : bool) (c : conn) : conn := mkconn (srv c) (strict c) (sid c) (kex c) (kexinit_sent c) (kex_complete c) (send_enc c) (recv_enc c) (next_recv c) (can_recv_ext c) (next_service c) (auth_in_prog c) (auth c) (req_issued c) (methods c) (auth_complete c) (auth_final c) (user c) (deferred c) (pending c) (closed c) (authed c) (unsolicited c) (app_events c) (desync c) (olog c) (deleg c) (gated c) (waiting c) v.
 
 (* counters and ghost history kept outside [conn] so that packet processing cannot touch them *)
 Record st := mkst {
@@ -118,7 +120,7 @@ Record st := mkst {
 (* gated: the client application's credential callbacks suspend until the harness releases them (EvRelease) *)
 Definition init_conn (server gated_ : bool) : conn :=
   mkconn server false false false false false false false false false false false 0 false [0] false false 0
-         [] [] false 0 false 0 false [] false gated_ false.
+         [] [] false 0 false 0 false [] false gated_ false false.
 Definition init_gated (server gated_ : bool) : st := mkst (init_conn server gated_) 0 0 (-1) (-1) [].
 Definition init (server : bool) : st := init_gated server false.
 
@@ -193,15 +195,17 @@ Definition send_newkeys (c : conn) : conn :=
   send_deferred c3.
 
 (* ---- transport handlers --------------------------------------------------------------------------- *)
-(* KEXINIT.  cls: 0 = peer does not offer strict KEX, 1 = peer's strict marker present *)
+(* KEXINIT.  cls = marker + 2 * guess: marker 1 = the peer's strict-KEX marker is present; guess 1 = the peer set
+   first_kex_packet_follows and the first method on its list is not the one negotiated (a wrong guess: the kex
+   packet that follows must be ignored, once, whatever strict says; a right guess needs nothing) *)
 Definition on_kexinit_g (fixk : bool) (c : conn) (seq cls : Z) : conn :=
   if kex c || (fixk && next_recv c) then fatal c
   else
-    let c1 := if negb (sid c) && (cls =? 1) then set_strict true c else c in
+    let c1 := if negb (sid c) && Z.odd cls then set_strict true c else c in
     if strict c1 && negb (recv_enc c1) && negb (seq =? 0) then fatal c1
     else
       let c2 := if kexinit_sent c1 then set_kexinit_sent false c1 else send_kexinit c1 in
-      let c3 := set_kex true c2 in
+      let c3 := set_ignore_first (2 <=? cls) (set_kex true c2) in
       if srv c3 then c3 else emit c3 30 0.                (* client: kex.start() sends ECDH_INIT *)
 
 (* NEWKEYS.  cls: 0 = sent by the peer's own protocol engine, 1 = injected: the receiving side switches to the
@@ -347,7 +351,10 @@ Definition on_connmsg_g (fixed fixk : bool) (c : conn) (seq t cls : Z) : conn :=
   else unimpl c seq.
 
 Definition dispatch_g (fixed fixk : bool) (c : conn) (seq t cls : Z) : conn :=
-  if (30 <=? t) && (t <=? 49) then (if kex c then on_kexmsg c seq t cls else fatal c)
+  if (30 <=? t) && (t <=? 49) then
+    (if kex c then (if ignore_first c then set_ignore_first false c      (* 'ignored first kex': not even parsed *)
+                   else on_kexmsg c seq t cls)
+     else fatal c)
   else if strict c && negb (recv_enc c) && (2 <=? t) && (t <=? 4) then fatal c
   else if (60 <=? t) && (t <=? 79) then (if negb (auth c =? 0) then on_authmsg c seq t cls else fatal c)
   else if (49 <? t) && negb (recv_enc c) then fatal c
@@ -466,10 +473,12 @@ Definition verdict_eqb (a b : verdict) : bool :=
    a second session with several authentication methods: M0 keyboard-interactive attempt running;
    M1 server: that attempt failed / client: answer sent; M2 server: publickey attempt failed / client:
    keyboard-interactive failed, password request outstanding; M3 server: password attempt failed / client:
-   authenticated through keyboard-interactive; client only, from two sessions whose credential callbacks suspend:
-   13 N0 'none' refused / 14 N1 keyboard-interactive prompt cancelled after its request / 15 N2 password change not
-   supported after its request / 16 N3 keyboard-interactive skipped by its callback / 17 N4 password callback had
-   nothing to offer / 18 N5 publickey query refused - each time with the next method's callback still pending;
+   authenticated through keyboard-interactive; 13 G1 and 14 G2: like K1, but the peer's KEXINIT set
+   first_kex_packet_follows - G1 with a wrong guess (first method on its list is not the negotiated one; the probe
+   takes the place of the guessed packet), G2 with a right guess; client only, from two sessions whose credential
+   callbacks suspend: 15 N0 'none' refused / 16 N1 keyboard-interactive prompt cancelled after its request / 17 N2 password change not
+   supported after its request / 18 N3 keyboard-interactive skipped by its callback / 19 N4 password callback had
+   nothing to offer / 20 N5 publickey query refused - each time with the next method's callback still pending;
    variants 0..3 = well-formed, empty body, last byte cut off, one trailing byte.
    Everything below is parametric in rowf so that a scratch run can check a live table that differs from
    the committed one. *)
@@ -486,8 +495,8 @@ Definition lookup (rowf : rowfun) (server : bool) (phase : Z) (strict_ : bool) (
 
 Definition zrange (n : nat) : list Z := map Z.of_nat (seq 0 n).
 
-(* a server has 13 phases; a client six more (13..18): the windows between two authentication methods *)
-Definition nphases (server : bool) : nat := if server then 13%nat else 19%nat.
+(* a server has 15 phases; a client six more (15..20): the windows between two authentication methods *)
+Definition nphases (server : bool) : nat := if server then 15%nat else 21%nat.
 Definition NVARIANTS : nat := 4.
 Definition NTYPES : nat := 256.
 
@@ -541,7 +550,7 @@ Definition p_prekex (sv : bool) (ph : Z) (sk : bool) (va t : Z) (w v : verdict) 
 
 (* phases in which authentication has not completed / has completed *)
 Definition preauth_phase (sv : bool) (ph : Z) : bool :=
-  (ph <=? 4) || ((9 <=? ph) && (ph <=? 11)) || ((ph =? 12) && sv) || (negb sv && (13 <=? ph)).
+  (ph <=? 4) || ((9 <=? ph) && (ph <=? 11)) || ((ph =? 12) && sv) || (negb sv && (15 <=? ph)).
 Definition postauth_phase (sv : bool) (ph : Z) : bool :=
   ((5 <=? ph) && (ph <=? 8)) || ((ph =? 12) && negb sv).
 (* phases in which no authentication attempt is in progress on the endpoint: a server everywhere except while its
@@ -553,7 +562,7 @@ Definition no_attempt (sv : bool) (ph : Z) : bool :=
 (* client only: the windows between two authentication methods - the previous method has ended (refused by
    USERAUTH_FAILURE, or skipped by the client itself: prompt cancelled, nothing to offer, password change not
    supported) and the next method's request has not been sent because its credential callback is still pending *)
-Definition between_phase (sv : bool) (ph : Z) : bool := negb sv && (13 <=? ph) && (ph <=? 18).
+Definition between_phase (sv : bool) (ph : Z) : bool := negb sv && (15 <=? ph) && (ph <=? 20).
 
 (* in those windows no request is outstanding: USERAUTH_SUCCESS ends the connection *)
 Definition p_between (sv : bool) (ph : Z) (sk : bool) (va t : Z) (w v : verdict) : bool :=
@@ -584,8 +593,18 @@ Definition p_postauth (sv : bool) (ph : Z) (sk : bool) (va t : Z) (w v : verdict
   else true.
 
 Definition p_unassigned (sv : bool) (ph : Z) (sk : bool) (va t : Z) (w v : verdict) : bool :=
-  if unassigned t then verdict_eqb v VU || is_fatal v else true.
+  (* not in G1: there the session can only go on if the probe is the kex-range packet that gets ignored *)
+  if unassigned t && negb (ph =? 13) then verdict_eqb v VU || is_fatal v else true.
 
 (* a damaged body never makes a message more acceptable than its well-formed form *)
+(* first_kex_packet_follows.  G1 (wrong guess pending): every packet of type 30..49 - whatever its body, strict or
+   not - is ignored: no reaction, and the session then runs exactly like the untampered one without any guess.
+   G2 (right guess): every entry equals the K1 entry, i.e. the exchange goes on as if nothing had been guessed and
+   the packet the exchange calls for is processed. *)
+Definition p_guess (rowf : rowfun) (sv : bool) (ph : Z) (sk : bool) (va t : Z) (w v : verdict) : bool :=
+  if (ph =? 13) && (30 <=? t) && (t <=? 49) then verdict_eqb v VI
+  else if ph =? 14 then verdict_eqb v (lookup rowf sv 1 sk va t)
+  else true.
+
 Definition p_malformed (sv : bool) (ph : Z) (sk : bool) (va t : Z) (w v : verdict) : bool :=
   if va =? 0 then true else verdict_eqb v VF || verdict_eqb v w.
